@@ -47,7 +47,8 @@ impl Int {
     /// Otherwise nothing will be returned (undefined).
     pub fn as_negative(&self) -> Option<BigNum> {
         if !self.is_positive() {
-            Some(((-self.0) as u64).into())
+            use std::convert::TryFrom;
+            u64::try_from(-self.0).ok().map(BigNum::from)
         } else {
             None
         }
